@@ -154,7 +154,7 @@ func canonicalOK(t *vlib.T, tm M, ctx string) bool {
 const locTol = 1e-7
 
 func genDtrexc(g *vlib.G) {
-	lim := p3(g, 6, 7, 9)
+	lim := p3(g, 6, 8, 9)
 	for n := 0; n <= lim; n++ {
 		for _, blocks := range compositions(n) {
 			for fill := 0; fill < 3; fill++ {
